@@ -105,6 +105,11 @@ def obj_digest(o, light=False):
     d["params"] = params
     if isinstance(o, Component):
         d["material"] = type(o.material).__name__
+        # ... and what that material is made of and weighs (blueprints modify materials: enrichment, alloy fractions)
+        try:
+            d["materialComposition"] = {str(k): _num(v) for k, v in sorted(o.material.massFrac.items()) if v}
+        except Exception:  # noqa: BLE001
+            d["materialComposition"] = None
         d["Tinput"] = float(o.inputTemperatureInC)
         d["Thot"] = float(o.temperatureInC)
         dims = {}
